@@ -46,10 +46,188 @@ let c12 (payload : string) : string =
     end;
     String.trim (Buffer.contents res)
 
+
+(* ---------------- C01 / C02: wire codec ---------------- *)
+let derr_name (e : derr) = match e with
+  | EOF -> "EOF" | UnexpectedEOF -> "UnexpectedEOF" | BadMagic -> "BadMagic" | TooLong -> "TooLong"
+  | InvalidFrame -> "InvalidFrame" | MetaKVMissing -> "MetaKVMissing"
+  | UnsupportedCompressor -> "UnsupportedCompressor" | UnzipError -> "UnzipError"
+  | RecoveredPanic -> "RecoveredPanic"
+
+(* a compressor environment from a one-shot spec: "N" none needed, "U" unregistered, "E" fails, hex = result *)
+let env_of_spec (zipspec : string) (unzipspec : string) : n -> compressor option =
+  let f spec = fun (_ : n list) -> if spec = "E" then None else Some (bytes_of_hex spec) in
+  fun _ -> if zipspec = "U" || unzipspec = "U" then None
+           else Some { c_zip = f zipspec; c_unzip = f unzipspec }
+
+let parse_meta (s : string) : (n list * n list) list =
+  if s = "-" then [] else
+  List.map (fun e -> match String.split_on_char ':' e with
+    | [k; v] -> (bytes_of_hex k, bytes_of_hex v) | _ -> failwith "meta") (String.split_on_char ',' s)
+
+(* Go map semantics + canonical order for printing: later duplicate wins, sorted by key bytes *)
+let show_meta (kvs : (n list * n list) list) : string =
+  let tbl = Hashtbl.create 8 in
+  List.iter (fun (k, _) ->
+    let ks = raw_of_bytes k in
+    match meta_lookup k kvs with
+    | Some v -> Hashtbl.replace tbl ks (raw_of_bytes v)
+    | None -> ()) kvs;
+  let l = Hashtbl.fold (fun k v acc -> (k, v) :: acc) tbl [] in
+  let l = List.sort compare l in
+  if l = [] then "-" else String.concat "," (List.map (fun (k, v) -> show_raw k ^ ":" ^ show_raw v) l)
+
+let show_msg (m : message) : string =
+  Printf.sprintf "%s %s %s %s %s" (show_bytes m.m_hdr) (show_bytes m.m_path) (show_bytes m.m_meth)
+    (show_meta m.m_meta) (show_bytes m.m_payload)
+
+let rec nlen (l : 'a list) : int = List.length l
+
+let c01 (payload : string) : string =
+  match split_on ' ' payload with
+  | ["hdr"; h; op; v] ->
+    let h = bytes_of_hex h in
+    let h' = (match op with
+      | "version" -> setVersion h (n_of_dec v)
+      | "type" -> setMessageType h (n_of_dec v)
+      | "hb" -> setHeartbeat h (v = "1")
+      | "ow" -> setOneway h (v = "1")
+      | "compress" -> setCompressType h (n_of_dec v)
+      | "status" -> setMessageStatusType h (n_of_dec v)
+      | "serialize" -> setSerializeType h (n_of_dec v)
+      | "seq" -> setSeq h (n_of_dec v)
+      | _ -> failwith "op") in
+    let b x = if x then "1" else "0" in
+    Printf.sprintf "%s v=%d t=%d hb=%s ow=%s c=%d st=%d ser=%d seq=%s" (show_bytes h')
+      (int_of_n (version h')) (int_of_n (messageType h')) (b (isHeartbeat h')) (b (isOneway h'))
+      (int_of_n (compressType h')) (int_of_n (messageStatusType h')) (int_of_n (serializeType h'))
+      (show_bytes (List.filteri (fun i _ -> i >= 4) h'))
+  | [kind; h; sp; sm; meta; pl; zipspec] when kind = "encp" || kind = "encs" ->
+    let m = { m_hdr = bytes_of_hex h; m_path = bytes_of_hex sp; m_meth = bytes_of_hex sm;
+              m_meta = parse_meta meta; m_payload = bytes_of_hex pl } in
+    let env = env_of_spec zipspec "N" in
+    if kind = "encp" then begin
+      let l = int_of_n (encode_len env m) in
+      let garbage = List.init l (fun _ -> n_of_int 0xAA) in
+      show_bytes (encode_pooled env garbage m)
+    end else begin
+      match encode_stream env m with
+      | (b, None) -> show_bytes b
+      | (b, Some WUnsupportedCompressor) -> show_bytes b ^ " ERR UnsupportedCompressor"
+      | (b, Some WZipError) -> show_bytes b ^ " ERR ZipError"
+    end
+  | _ -> "bad"
+
+let show_dec (r : msgobj outcome * n list) : string =
+  match r with
+  | (Ok o, rest) -> Printf.sprintf "OK %s rest=%d" (show_msg o.o_msg) (nlen rest)
+  | (Err e, rest) -> Printf.sprintf "ERR %s rest=%d" (derr_name e) (nlen rest)
+  | (Panic, rest) -> Printf.sprintf "PANIC rest=%d" (nlen rest)
+
+let c02 (payload : string) : string =
+  match split_on ' ' payload with
+  | "dec" :: max :: steps ->
+    let maxlen = n_of_dec max in
+    let obj = ref fresh_obj and out = ref [] and stop = ref false in
+    List.iter (fun st ->
+      if not !stop then begin
+        match String.split_on_char ':' st with
+        | [rs; stream; unz] ->
+          if rs = "R" then obj := { o_msg = fresh_obj.o_msg; o_backing = !obj.o_backing };
+          let r = decode (env_of_spec "N" unz) maxlen !obj (bytes_of_hex stream) in
+          out := show_dec r :: !out;
+          (match r with (Ok o, _) -> obj := o | _ -> stop := true)
+        | _ -> failwith "step"
+      end) steps;
+    String.concat " | " (List.rev !out)
+  | ["all"; max; stream] ->
+    let s = bytes_of_hex stream in
+    let (ms, e) = decode_all (nat_of_int (1 + List.length s / 16)) (fun _ -> None) (n_of_dec max) fresh_obj s in
+    Printf.sprintf "n=%d %s end=%s" (List.length ms)
+      (String.concat " ; " (List.map show_msg ms))
+      (match e with None -> "none" | Some e -> derr_name e)
+  | _ -> "bad"
+
+(* ---------------- C11 / C13: selectors ---------------- *)
+(* server names are "s<number>": the number is the model's object id (name order = id order) *)
+let sid (name : string) : nat = nat_of_int (int_of_string (String.sub name 1 (String.length name - 1)))
+let sname (i : nat) : string = Printf.sprintf "s%02d" (int_of_nat i)
+let show_sel (r : nat option) = match r with None -> "-" | Some i -> sname i
+
+let zbytes_of_hex (s : string) : z list = List.map (fun x -> z_of_int (int_of_n x)) (bytes_of_hex s)
+
+let c11 (payload : string) : string =
+  match split_on ' ' payload with
+  | [] -> "bad"
+  | kind :: toks when kind = "rr" || kind = "wrr" -> c12 payload
+  | "rnd" :: toks ->
+    let cur = ref [] and out = Buffer.create 64 in
+    List.iter (fun t ->
+      let body = String.sub t 2 (String.length t - 2) in
+      if t.[0] = 'U' then cur := List.map sid (split_on ',' body)
+      else begin
+        (* S:<observed>: echo it when some oracle index yields it, else flag it *)
+        let n = List.length !cur in
+        let valid = if n = 0 then [None] else List.init n (fun i -> rnd_select !cur (nat_of_int i)) in
+        let obs = if body = "-" then None else Some (sid body) in
+        Buffer.add_string out (if List.mem obs valid then show_sel obs else "!" ^ body); Buffer.add_char out ' '
+      end) toks;
+    String.trim (Buffer.contents out)
+  | "geo" :: toks ->
+    let cur = ref [] and out = Buffer.create 64 in
+    List.iter (fun t ->
+      let body = String.sub t 2 (String.length t - 2) in
+      if t.[0] = 'U' then
+        cur := create_geo (List.map (fun e ->
+          match String.split_on_char '=' e with
+          | [name; spec] ->
+            let c ch = (match ch with 'F' -> CFinite | 'N' -> CNonFinite | _ -> CMissing) in
+            let d = String.sub spec 2 (String.length spec - 2) in
+            { g_id = sid name; g_lat = c spec.[0]; g_lon = c spec.[1];
+              g_dist = (if d = "nan" || d = "-" then None else Some (z_of_dec d)) }
+          | _ -> failwith "geo entry") (split_on ',' body))
+      else begin
+        let cands = List.length !cur in
+        let valid = List.init (max cands 1) (fun i -> geo_select !cur (nat_of_int i)) in
+        let obs = if body = "-" then None else Some (sid body) in
+        Buffer.add_string out (if List.mem obs valid then show_sel obs else "!" ^ body); Buffer.add_char out ' '
+      end) toks;
+    String.trim (Buffer.contents out)
+  | "ch" :: toks ->
+    let st = ref None and out = Buffer.create 64 in
+    List.iter (fun t ->
+      let body = String.sub t 2 (String.length t - 2) in
+      if t.[0] = 'U' then begin
+        let keys = List.map sid (split_on ',' body) in
+        st := Some (match !st with None -> ch_new keys | Some s -> ch_update s keys)
+      end else begin
+        (* K:<hex of the key string>: the model computes FNV-1a and routes *)
+        let key = hash_string (zbytes_of_hex body) in
+        (match !st with
+         | None -> Buffer.add_string out "-"
+         | Some s -> Buffer.add_string out (show_sel (ch_select s key)));
+        Buffer.add_char out ' '
+      end) toks;
+    String.trim (Buffer.contents out)
+  | _ -> "bad"
+
+let c13 (payload : string) : string =
+  match split_on ' ' payload with
+  | ["jump"; key; n] -> string_of_int (int_of_z (jump (z_of_dec key) (z_of_dec n)))
+  | ["fnv"; hex] -> (match hash_string (zbytes_of_hex hex) with
+      | Z0 -> "0" | Zpos p -> (let rec go p = match p with XH -> 1L | XO q -> Int64.mul 2L (go q) | XI q -> Int64.add 1L (Int64.mul 2L (go q)) in Printf.sprintf "%Lu" (go p))
+      | Zneg _ -> "neg")
+  | "ch" :: _ -> c11 payload
+  | _ -> "bad"
+
 let () =
   let prop = Sys.argv.(1) in
   let f = match prop with
     | "C12" -> c12
+    | "C11" -> c11
+    | "C13" -> c13
+    | "C01" -> c01
+    | "C02" -> c02
     | _ -> failwith ("unknown property " ^ prop) in
   try
     while true do
